@@ -81,6 +81,51 @@ def cli_check(name, assertions, timeout_s, workdir=None, script=None):
     return Result("unknown", name, dt, detail=(out + " " + err)[:300])
 
 
+def cli_race(script, timeout_s, workdir=None, wait_all=False):
+    """Run all command-line solvers concurrently on one script; first definite answer wins
+    (the others are killed) unless wait_all."""
+    fd, path = tempfile.mkstemp(suffix=".smt2", dir=workdir)
+    with os.fdopen(fd, "w") as f:
+        f.write(script)
+    procs = {}
+    t0 = time.time()
+    for name, cmd, tflag, mult in CLI:
+        try:
+            procs[name] = subprocess.Popen(cmd + [tflag % int(timeout_s * mult), path], stdout=subprocess.PIPE,
+                                           stderr=subprocess.PIPE, text=True)
+        except OSError:
+            pass
+    results = {}
+    deadline = t0 + timeout_s + 5
+    try:
+        while procs and time.time() < deadline:
+            for name in list(procs):
+                p = procs[name]
+                if p.poll() is not None:
+                    out, err = p.communicate()
+                    first = out.strip().splitlines()[0].strip() if out.strip() else ""
+                    dt = time.time() - t0
+                    if first in ("sat", "unsat"):
+                        results[name] = Result(first, name, dt)
+                    else:
+                        results[name] = Result("unknown", name, dt, detail=(out + " " + err).strip()[:300])
+                    del procs[name]
+            if not wait_all and any(r.verdict != "unknown" for r in results.values()):
+                break
+            if procs:
+                time.sleep(0.01)
+    finally:
+        for name, p in procs.items():
+            p.kill()
+            p.communicate()
+            results.setdefault(name, Result("unknown", name, time.time() - t0, detail="killed"))
+        try:
+            os.unlink(path)
+        except OSError:
+            pass
+    return results
+
+
 def check(assertions, quick_ms=3000, cli_timeout_s=20, all_solvers=False, want_model=True, seed=0,
           workdir=None):
     """Satisfiability of the conjunction of `assertions` with the portfolio."""
@@ -90,23 +135,19 @@ def check(assertions, quick_ms=3000, cli_timeout_s=20, all_solvers=False, want_m
         r.all = {k: (v.verdict, round(v.time, 3)) for k, v in results.items()}
         return r
     script = tm.smt_script(assertions, produce_models=False)
-    for name, _, _, _ in CLI:
-        rr = cli_check(name, None, cli_timeout_s, workdir, script=script)
-        results[name] = rr
-        if rr.verdict != "unknown" and not all_solvers:
-            break
+    results.update(cli_race(script, cli_timeout_s, workdir, wait_all=all_solvers))
     definite = {v.verdict for v in results.values() if v.verdict != "unknown"}
     if len(definite) > 1:
         raise SolverDisagreement({k: v.verdict for k, v in results.items()})
     summary = {k: (v.verdict, round(v.time, 3)) for k, v in results.items()}
+    wall = results["z3py"].time + max([v.time for k, v in results.items() if k != "z3py"] or [0])
     if definite:
         verdict = definite.pop()
-        win = [v for v in results.values() if v.verdict == verdict][0]
+        win = sorted([v for v in results.values() if v.verdict == verdict], key=lambda v: v.time)[0]
         model = results["z3py"].model if verdict == "sat" else None
         if verdict == "sat" and model is None and want_model:
-            # get a model from in-process z3 with a longer budget; else none
             r2 = z3_check(assertions, 20000, want_model=True, seed=seed + 1)
             model = r2.model if r2.verdict == "sat" else None
-        return Result(verdict, win.solver, sum(v.time for v in results.values()), model, all_=summary)
-    return Result("unknown", "portfolio", sum(v.time for v in results.values()),
+        return Result(verdict, win.solver, wall, model, all_=summary)
+    return Result("unknown", "portfolio", wall,
                   detail="; ".join("%s: %s" % (k, v.detail) for k, v in results.items()), all_=summary)
